@@ -273,7 +273,14 @@ func c03Check(c *fw.Ctx, id, tr string, in []byte, reduceFrom []byte) {
 					}
 				}
 			}
-			c.Violate(rule+"/"+tr, sigOf(rule, preds), id+": "+detail, string(in))
+			// predicates that cannot matter without import management are dropped
+			var rel []string
+			for _, p := range preds {
+				if p != "duplicate-import-path" && p != "bom" {
+					rel = append(rel, p)
+				}
+			}
+			c.Violate(rule+"/"+tr, sigOf(rule, rel), id+": "+detail, string(in))
 		}
 	})
 }
